@@ -327,17 +327,33 @@ Qed.
 
 Definition lx (s : String.string) : T B64 := match parse_float (b s) with Some v => v | None => S754_nan end.
 
+(* the four coefficients, evaluated once (the book below holds the literal binary64 values: [injection] on an
+   equation between books must not have to reduce [parse_float]) *)
+Definition v_0_1 : T B64 := Eval vm_compute in lx "0.1".
+Definition v_0_2 : T B64 := Eval vm_compute in lx "0.2".
+Definition v_0_3 : T B64 := Eval vm_compute in lx "0.3".
+Definition v_2_675 : T B64 := Eval vm_compute in lx "2.675".
+Definition n_cake : bytes := Eval vm_compute in b "cake".
+Definition n_flour : bytes := Eval vm_compute in b "flour".
+Definition n_icing : bytes := Eval vm_compute in b "icing".
+Definition n_sugar : bytes := Eval vm_compute in b "sugar".
+Definition n_butter : bytes := Eval vm_compute in b "butter".
+
 (** cake -> 0.1 flour, 0.2 icing; icing -> 0.3 sugar, 2.675 butter *)
 Definition cake_book : db B64 :=
-  [ (b "cake", [(b "flour", lx "0.1"); (b "icing", lx "0.2")]);
-    (b "icing", [(b "sugar", lx "0.3"); (b "butter", lx "2.675")]) ].
+  [ (n_cake, [(n_flour, v_0_1); (n_icing, v_0_2)]);
+    (n_icing, [(n_sugar, v_0_3); (n_butter, v_2_675)]) ].
 
 Example cake_book_parsed : parsed_book cake_book.
 Proof.
+  assert (H1 : of_lexeme B64 (b "0.1") = Some v_0_1) by (vm_compute; reflexivity).
+  assert (H2 : of_lexeme B64 (b "0.2") = Some v_0_2) by (vm_compute; reflexivity).
+  assert (H3 : of_lexeme B64 (b "0.3") = Some v_0_3) by (vm_compute; reflexivity).
+  assert (H4 : of_lexeme B64 (b "2.675") = Some v_2_675) by (vm_compute; reflexivity).
   intros r els x a Hin Hx. unfold cake_book in Hin. cbn [In] in Hin.
   destruct Hin as [Hin|[Hin|[]]]; injection Hin as <- <-; cbn [In] in Hx;
     destruct Hx as [Hx|[Hx|[]]]; injection Hx as <- <-;
-    [exists (b "0.1")|exists (b "0.2")|exists (b "0.3")|exists (b "2.675")]; vm_compute; reflexivity.
+    [exists (b "0.1"); exact H1|exists (b "0.2"); exact H2|exists (b "0.3"); exact H3|exists (b "2.675"); exact H4].
 Qed.
 
 Example cake_book_depth : depth_lt B64 cake_book 10.
@@ -353,8 +369,8 @@ Qed.
 
 (** ... and the resolution did something: cake = 0.1 flour + (0.3*0.2) sugar + (2.675*0.2) butter *)
 Example cake_book_resolved :
-  lookup (b "cake") (ref_db B64 cake_book 10)
-  = Some [(b "butter", SFmul prec emax (lx "2.675") (lx "0.2"));
-          (b "flour", SFmul prec emax (lx "0.1") (f_of_Z 1));
-          (b "sugar", SFmul prec emax (lx "0.3") (lx "0.2"))].
+  lookup n_cake (ref_db B64 cake_book 10)
+  = Some [(n_butter, SFmul prec emax v_2_675 v_0_2);
+          (n_flour, SFmul prec emax v_0_1 (f_of_Z 1));
+          (n_sugar, SFmul prec emax v_0_3 v_0_2)].
 Proof. vm_compute. reflexivity. Qed.
